@@ -408,7 +408,7 @@ def exc_escape(ix, R):
     stop = lambda fn: fn.module.relpath.startswith('taurex/cache/') and fn.name != '__getitem__'
     reach = cg.reach(roots, stop=stop)
     R.info['exc_reachable_functions'] = len(reach)
-    n_caught = n_abs = n_allow = 0
+    n_caught = n_abs = n_allow = n_builtin = 0
     sub_ok = True
     for k, (f, par) in sorted(reach.items(), key=lambda kv: kv[1][0].site):
         for node, exc in raises_in(f):
@@ -429,6 +429,15 @@ def exc_escape(ix, R):
             if why:
                 n_allow += 1
                 R.ok('4.exc.allow', 'EXC', site, 'raise %s allow-listed: %s' % (exc, why), loc=f.loc(node))
+                continue
+            import builtins
+            if r is None and isinstance(getattr(builtins, exc.split('(')[0], None), type):
+                # ValueError / TypeError / RuntimeError ...: the classes the interpreter and numpy raise implicitly for
+                # programming and configuration errors (not decided, see NOT_DECIDED).  An explicit check that turns an
+                # already crashing input into a clearer built-in error states nothing about invalid atmospheres; the
+                # known validity checks are pinned to InvalidModelException by C10.1 / C12.1 and n_caught below.
+                n_builtin += 1
+                R.note('raise %s in %s (built-in class: input / configuration error, listed, not judged)' % (exc, f.qualname))
                 continue
             R.fail('4.exc', 'EXC', site,
                    'every raise reachable from the likelihood callback is an InvalidModelException '
